@@ -4,6 +4,14 @@ import json, os
 HERE = os.path.dirname(os.path.dirname(os.path.abspath(__file__)))
 
 CLAIMED = {
+ 'C10': ('AST rule checking of serialiser/parser token agreement + regex automaton equivalence for line breaks + folded vocabulary tables',
+         'Decides only the structural clauses: serialiser and parser agree on every token (separators, first-"=" split, names only lower-cased, parentheses, @name:, Tag:), CRLF/CR/LF are normalised before splitting (language equivalence), vocabulary tables are mutually consistent, accepted by TAG_RE and equal to the ast constants written to the GIR.',
+         'NOT decided (not applicable to static analysis): layout independence, multi-line continuation, exact recovery of descriptions, the write/parse round trip as a whole. Trusted: CPython ast and re._parser.',
+         '§4 C10'),
+ 'C11': ('reaching definitions over a hand-built CFG + regex automaton universality + coordinate-frame typing + dominance rules',
+         'Decides for all inputs: every group reference exists in every pattern that can reach it; every match dereference is dominated by a truth test of the same match or the pattern is total on lines (automaton universality, exhaustive); every valid annotation has a validator and is known to the option parser; catch-all around each block; caret column and quoted line share a coordinate frame outside the deprecated tag branch; positions survive copies; every diagnostic is counted before suppression and warnings-as-errors consults the count; malformed annotation fields are all-or-nothing.',
+         'Not decided: "never raises" beyond the enumerated raise sources (AttributeError on None match, IndexError on groups, missing validator, TypeError on option-less annotations); caret-within-line for arbitrary text. Trusted: CPython ast, re._parser; lines contain no newline (they come from split on newline).',
+         '§4 C11'),
  'C18': ('AST/CFG pairing and ordering rules: temp-file-then-move, fstat-on-open-descriptor, handler breadth, purge-dominates-stamp, who-may-write, mode/cache pairing',
          'Decides the structural necessary conditions for every schedule and crash point: entries and stamp are only ever published by moving a closed temp file; freshness is decided on the descriptor that is unpickled with full-resolution mtimes and older-than-source rejected; any unpickling exception discards the entry; purge dominates publishing a new version stamp; cache hit/miss controls only parse+store and the cache is disabled when the parse mode differs.',
          'Not decided: actual interleavings, crash points, mtime granularity of the file system, cross-device move semantics (a torn copy is left to the unpickling failure rule). Trusted: rename atomicity of shutil.move on one file system.',
